@@ -1,10 +1,305 @@
 package rules
 
 import (
+	"fmt"
+	"go/ast"
+	"go/types"
+	"sort"
+	"strings"
+
+	"golang.org/x/tools/go/ssa"
+
+	"kverif/internal/an"
 	"kverif/internal/load"
 	"kverif/internal/oblig"
 )
 
-func c04Legacy(p *load.Program, r *oblig.Report)     {}
-func c04Framing(p *load.Program, r *oblig.Report)    {}
-func c04Primitives(p *load.Program, r *oblig.Report) {}
+func newByteInterp(p *load.Program) *an.ByteInterp {
+	pk := p.Pkg("")
+	return &an.ByteInterp{
+		Info:       pk.TypesInfo,
+		Decl:       func(f *types.Func) *ast.FuncDecl { return p.Decl(f) },
+		Assume:     map[string]bool{},
+		Opaque:     map[string]bool{"Flush": true},
+		VarWriters: map[string]bool{"writeVarInt": true},
+		VarLenFns:  map[string]bool{"varIntLen": true},
+	}
+}
+
+// linDiff lists the terms that differ between two linear forms.
+func linDiff(want, got an.Lin) string {
+	var out []string
+	keys := map[string]bool{}
+	for k := range want {
+		keys[k] = true
+	}
+	for k := range got {
+		keys[k] = true
+	}
+	var ks []string
+	for k := range keys {
+		ks = append(ks, k)
+	}
+	sort.Strings(ks)
+	for _, k := range ks {
+		if want[k] != got[k] {
+			name := k
+			if name == "" {
+				name = "<constant>"
+			}
+			out = append(out, fmt.Sprintf("%s: bytes written %d× vs size %d×", oblig.Short(name, 300), want[k], got[k]))
+		}
+	}
+	return strings.Join(out, " ;; ")
+}
+
+func newBState() *an.BState {
+	return &an.BState{Heap: map[string]*an.SV{}, Sinks: map[string][]an.WEvent{}}
+}
+
+func rootMethod(p *load.Program, n *types.Named, name string) *types.Func {
+	for _, t := range []types.Type{n, types.NewPointer(n)} {
+		ms := types.NewMethodSet(t)
+		for i := 0; i < ms.Len(); i++ {
+			if ms.At(i).Obj().Name() == name {
+				f, _ := ms.At(i).Obj().(*types.Func)
+				return f
+			}
+		}
+	}
+	return nil
+}
+
+// legacyRequestTypes returns the concrete types passed to (*Conn).writeRequest and everything nested in them.
+func legacyRequestTypes(p *load.Program) (map[*types.Named]bool, int) {
+	out := map[*types.Named]bool{}
+	wr := p.Func("", "(*Conn).writeRequest")
+	sites := 0
+	if wr == nil {
+		return out, 0
+	}
+	var add func(t types.Type)
+	add = func(t types.Type) {
+		if ptr, ok := t.(*types.Pointer); ok {
+			t = ptr.Elem()
+		}
+		n, ok := t.(*types.Named)
+		if !ok || n.Obj().Pkg() == nil || n.Obj().Pkg().Path() != load.ModPath {
+			if sl, ok := t.Underlying().(*types.Slice); ok {
+				add(sl.Elem())
+			}
+			return
+		}
+		if out[n] {
+			return
+		}
+		if rootMethod(p, n, "size") == nil {
+			return
+		}
+		out[n] = true
+		switch u := n.Underlying().(type) {
+		case *types.Struct:
+			for i := 0; i < u.NumFields(); i++ {
+				add(u.Field(i).Type())
+			}
+		case *types.Slice:
+			add(u.Elem())
+		}
+	}
+	for _, fn := range p.ModuleFunctions() {
+		an.EachInstr(fn, func(ins ssa.Instruction) {
+			c, ok := ins.(*ssa.Call)
+			if !ok || !an.StaticCalleeIs(&c.Call, wr) {
+				return
+			}
+			sites++
+			add(an.Unwrap(c.Call.Args[4]).Type())
+		})
+	}
+	return out, sites
+}
+
+func c04Legacy(p *load.Program, r *oblig.Report) {
+	const rule = "C04.R3 legacy size() ≡ bytes of writeTo()"
+	pk := p.Pkg("")
+	if pk == nil {
+		r.Lost(rule, "root package")
+		return
+	}
+	reqTypes, sites := legacyRequestTypes(p)
+	r.RequireCount(rule+" (writeRequest call sites)", sites, 16)
+	// every named type of the root package with size() and writeTo()
+	var names []string
+	scope := pk.Types.Scope()
+	for _, nm := range scope.Names() {
+		if tn, ok := scope.Lookup(nm).(*types.TypeName); ok {
+			if n, ok := tn.Type().(*types.Named); ok && rootMethod(p, n, "size") != nil && rootMethod(p, n, "writeTo") != nil {
+				names = append(names, nm)
+			}
+		}
+	}
+	sort.Strings(names)
+	nReq := 0
+	for _, nm := range names {
+		n := scope.Lookup(nm).Type().(*types.Named)
+		sz, wt := rootMethod(p, n, "size"), rootMethod(p, n, "writeTo")
+		bi := newByteInterp(p)
+		recv := &an.SV{K: 'r', Path: "$r", T: n}
+		st1 := newBState()
+		res := bi.CallFunc(sz, recv, nil, st1)
+		st2 := newBState()
+		wb := &an.SV{K: 'r', Path: "$wb", T: wt.Type().(*types.Signature).Params().At(0).Type()}
+		bi.CallFunc(wt, recv, []*an.SV{wb}, st2)
+		total := st2.Total("$wb.w")
+		pos := p.Pos(sz.Pos())
+		construct := "kafka." + nm
+		if len(bi.Errs) > 0 || res == nil || res.K != 'n' {
+			msg := strings.Join(bi.Errs, "; ")
+			if res != nil && res.K != 'n' {
+				msg += " size() result is not numeric: " + res.Canon()
+			}
+			if reqTypes[n] {
+				r.Undecided(rule, construct, pos, msg)
+			} else {
+				r.NoteF("%s (response-side, never sized by the library): not evaluated: %s", construct, msg)
+			}
+			continue
+		}
+		eq := an.LinEqual(res.L, total)
+		if reqTypes[n] {
+			nReq++
+			r.Check(eq, rule, construct, pos, "size() = "+oblig.Short(total.String(), 600)+" (bytes written by writeTo)", "differs in: "+linDiff(total, res.L), "bytes: "+oblig.Short(total.String(), 600))
+		} else if !eq {
+			r.NoteF("%s (response-side type, never sized by the library): size()=%s but writeTo() writes %s", construct, res.L.String(), total.String())
+		}
+	}
+	r.RequireCount(rule, nReq, 20)
+	c04WriteRequest(p, r)
+	c04RequestWriters(p, r)
+}
+
+// c04WriteRequest: hdr.Size = hdr.size() + req.size() - 4, header written before the body.
+func c04WriteRequest(p *load.Program, r *oblig.Report) {
+	const rule = "C04.R3 frame size of (*Conn).writeRequest"
+	wr := p.Func("", "(*Conn).writeRequest")
+	if wr == nil {
+		r.Lost(rule, "kafka.(*Conn).writeRequest")
+		return
+	}
+	fobj := wr.Object().(*types.Func)
+	bi := newByteInterp(p)
+	st := newBState()
+	sig := fobj.Type().(*types.Signature)
+	args := []*an.SV{}
+	for i := 0; i < sig.Params().Len(); i++ {
+		prm := sig.Params().At(i)
+		if b, ok := prm.Type().Underlying().(*types.Basic); ok && b.Info()&types.IsNumeric != 0 {
+			args = append(args, &an.SV{K: 'n', L: an.AtomLin("$p:" + prm.Name())})
+		} else {
+			args = append(args, &an.SV{K: 'r', Path: "$p:" + prm.Name(), T: prm.Type()})
+		}
+	}
+	bi.CallFunc(fobj, &an.SV{K: 'r', Path: "$c", T: sig.Recv().Type()}, args, st)
+	pos := p.Pos(wr.Pos())
+	ev := st.Sinks["$c.wb.w"]
+	if len(bi.Errs) > 0 || len(ev) == 0 || ev[0].Val == nil || ev[0].Val.K != 'n' {
+		r.Undecided(rule, "kafka.(*Conn).writeRequest", pos, fmt.Sprintf("could not evaluate: %v (events %d)", bi.Errs, len(ev)))
+		return
+	}
+	total := st.Total("$c.wb.w")
+	want := total.Clone()
+	want.AddLin(an.ConstLin(4), -1)
+	reqName := sig.Params().At(sig.Params().Len() - 1).Name()
+	want.AddLin(an.AtomLin("call:size($p:"+reqName+")"), 1)
+	r.Check(an.LinEqual(ev[0].Val.L, want), rule, "kafka.(*Conn).writeRequest", pos,
+		"Size field = header bytes after the size field + req.size() = "+want.String(), "Size field = "+ev[0].Val.L.String(),
+		fmt.Sprintf("header events: %d, header bytes %s", len(ev), total.String()))
+}
+
+// c04RequestWriters: for every function that builds a requestHeader literal and writes it, the Size
+// field equals the number of bytes written after it.
+func c04RequestWriters(p *load.Program, r *oblig.Report) {
+	const rule = "C04.R3 h.Size ≡ bytes written after the size field"
+	pk := p.Pkg("")
+	hdrT := pk.Types.Scope().Lookup("requestHeader")
+	if hdrT == nil {
+		r.Lost(rule, "kafka.requestHeader")
+		return
+	}
+	n := 0
+	for _, f := range pk.Syntax {
+		for _, d := range f.Decls {
+			fd, ok := d.(*ast.FuncDecl)
+			if !ok || fd.Body == nil || fd.Recv == nil {
+				continue
+			}
+			fobj, _ := pk.TypesInfo.Defs[fd.Name].(*types.Func)
+			if fobj == nil {
+				continue
+			}
+			// methods of *writeBuffer that contain a requestHeader composite literal
+			rt := fobj.Type().(*types.Signature).Recv().Type()
+			if !an.NamedIs(rt, load.ModPath, "writeBuffer") {
+				continue
+			}
+			has := false
+			ast.Inspect(fd.Body, func(nd ast.Node) bool {
+				if cl, ok := nd.(*ast.CompositeLit); ok && types.Identical(pk.TypesInfo.TypeOf(cl), hdrT.Type()) {
+					has = true
+				}
+				return true
+			})
+			if !has {
+				continue
+			}
+			n++
+			c04OneWriter(p, r, rule, fobj, fd)
+		}
+	}
+	// ApiVersions builds its header inside a closure of (*Conn).ApiVersions
+	r.RequireCount(rule, n, 7)
+}
+
+func c04OneWriter(p *load.Program, r *oblig.Report, rule string, fobj *types.Func, fd *ast.FuncDecl) {
+	bi := newByteInterp(p)
+	// uncompressed paths only (the compressed ones size an opaque buffer: not decided)
+	bi.Assume["$p:codec==nil"] = true
+	bi.Assume["$p:recordBatch.compressed!=nil"] = false
+	st := newBState()
+	sig := fobj.Type().(*types.Signature)
+	var args []*an.SV
+	for i := 0; i < sig.Params().Len(); i++ {
+		prm := sig.Params().At(i)
+		if b, ok := prm.Type().Underlying().(*types.Basic); ok && b.Info()&types.IsNumeric != 0 {
+			args = append(args, &an.SV{K: 'n', L: an.AtomLin("$p:" + prm.Name())})
+		} else {
+			args = append(args, &an.SV{K: 'r', Path: "$p:" + prm.Name(), T: prm.Type()})
+		}
+		// a record batch parameter carries size = recordBatchSize(msgs...) (established by newRecordBatch, checked by C05.R2)
+		if an.NamedIs(prm.Type(), load.ModPath, "recordBatch") {
+			if rbs, ok := p.Pkg("").Types.Scope().Lookup("recordBatchSize").(*types.Func); ok {
+				bi2 := newByteInterp(p)
+				sz := bi2.CallFunc(rbs, nil, []*an.SV{{K: 'r', Path: "$p:" + prm.Name() + ".msgs", T: types.NewSlice(p.Pkg("").Types.Scope().Lookup("Message").Type())}}, newBState())
+				if sz != nil && sz.K == 'n' && len(bi2.Errs) == 0 {
+					st.Heap["$p:"+prm.Name()+".size"] = sz
+				}
+			}
+		}
+	}
+	bi.CallFunc(fobj, &an.SV{K: 'r', Path: "$wb", T: sig.Recv().Type()}, args, st)
+	construct := "kafka.(*writeBuffer)." + fobj.Name()
+	pos := p.Pos(fobj.Pos())
+	ev := st.Sinks["$wb.w"]
+	if len(bi.Errs) > 0 || len(ev) == 0 || ev[0].Val == nil || ev[0].Val.K != 'n' {
+		r.Undecided(rule, construct, pos, fmt.Sprintf("could not evaluate: %v (events %d)", bi.Errs, len(ev)))
+		return
+	}
+	total := st.Total("$wb.w")
+	want := total.Clone()
+	want.AddLin(an.ConstLin(4), -1)
+	r.Check(an.LinEqual(ev[0].Val.L, want), rule, construct, pos, "h.Size = "+oblig.Short(want.String(), 600), "differs in: "+linDiff(want, ev[0].Val.L),
+		fmt.Sprintf("%d write events; total bytes %s", len(ev), oblig.Short(total.String(), 600)))
+}
+
+
+
